@@ -355,10 +355,11 @@ func vrRunCase(am *AuthManager, c *vrCase) (out vrCaseOut) {
 	am.InvalidateCache()
 	rm := vrNewRM(am, c, c.Max)
 	defer rm.Close()
+	var vrProp *vrProposer
 	if c.Mode == "cluster" {
-		p := &vrProposer{am: am, rm: rm}
-		am.SetRaftProposer(p)
-		rm.SetRaftProposer(p)
+		vrProp = &vrProposer{am: am, rm: rm}
+		am.SetRaftProposer(vrProp)
+		rm.SetRaftProposer(vrProp)
 		defer am.SetRaftProposer(nil)
 	}
 	ctx := context.Background()
@@ -443,6 +444,24 @@ func vrRunCase(am *AuthManager, c *vrCase) (out vrCaseOut) {
 				err = rm.UpdateOrganization(ctx, o.ID, &UpdateOrganizationRequest{Enabled: &en})
 			case "delete_org":
 				err = rm.DeleteOrganization(ctx, o.ID)
+			case "realign_org":
+				// what the FSM's apply callback does when the upgrade seed's CreateOrganization for a
+				// name this node already holds (under another id) is applied: cluster-apply mode only
+				var cur *Organization
+				cur, err = rm.GetOrganization(o.ID)
+				if err == nil && cur == nil {
+					err = errors.New("organization not found")
+				}
+				if err == nil && vrProp == nil {
+					err = errors.New("realign_org needs cluster-apply mode")
+				}
+				if err == nil {
+					vrProp.nOrg++
+					id = vrProp.nOrg
+					now := verifRbacNow().UnixNano()
+					err = rm.ApplyCreateOrganization(ClusterOrganizationEntry{ID: id, Name: cur.Name, Description: cur.Description,
+						CreatedAtUnixNano: now, UpdatedAtUnixNano: now, Enabled: true})
+				}
 			case "create_team":
 				nTeamName++
 				var x *Team
